@@ -36,7 +36,7 @@ namespace sim {
     X(frame_read_row, "C15", 0) X(frame_read_cell, "C15", 0) X(frame_read_col, "C15", 0) \
     X(abuse_array, "C16", 1) X(abuse_dims, "C16", 1) X(abuse_tag, "C16", 1) X(abuse_none, "C16", 1) \
     X(abuse_frame, "C16", 1) X(abuse_misc, "C16", 1) \
-    X(force_id, "C12", 1) \
+    X(force_id, "C12", 1) X(mk_graph, "C04", 1) X(abuse_tagging, "C16", 1) \
     X(ro_catalogue, "C09", 0) X(mode_probe, "C09", 0) X(version_cube, "C10", 0) X(xp, "C12", 0)
 
 enum OpKind {
@@ -185,7 +185,10 @@ struct World {
     // -- running
     void run(const Plan &p, const std::string &dir);
     void fail(const std::string &oracle, const std::string &detail);
-    bool failed() const { return viol.set; }
+    // only a violation of the lane's own property ends a run: after a foreign one (another property's oracle) the run goes on, so that
+    // what the lane's own oracles have to say about the same history is still heard (an own violation replaces a foreign one)
+    bool failed() const { return viol.set && viol_own; }
+    bool failed_any() const { return viol.set; }
     // -- sessions (exec.cpp)
     bool open_file(int mode, bool create);
     void close_file(bool gather_handles, uint64_t sub);
@@ -203,6 +206,9 @@ struct World {
     nix::Source source_at(int b, int slot);
     std::vector<nix::Section> all_sections();
     nix::Section section_at(int slot);
+    nix::DataArray foreign_arr(int b, int slot);
+    nix::Source foreign_src(int b, int slot);
+    nix::Tag foreign_tag(int b, int slot);
     nix::Property prop_at(int sec, int slot);
     std::string pick_name(Rng &r, int sel);
     std::string pick_type(int sel);
@@ -215,6 +221,7 @@ struct World {
     int exec_meta(const Op &op);
     int exec_frame(const Op &op);
     int exec_abuse(const Op &op);
+    int mk_graph(const Op &op);
     // deletion bookkeeping (C04)
     std::string del_victim;                  // id of entity about to be deleted (set by delete ops)
     bool del_result;
